@@ -206,7 +206,7 @@ class DeltaResult:
 
 def delta_analysis(fn, counters, discr=(), start_event=None, stop=None, maxstates=512,
                    root_only_rets=True, call_delta=None, start_block=None, cut=frozenset(),
-                   assume_dropped_success=True):
+                   assume_dropped_success=True, init_env=None, extra_relevant=()):
     """Disjunctive forward analysis.  A state is (deltas, env, preds):
          deltas : tuple of net changes of each counter in `counters`
                   ((record, field) pairs) since the start
@@ -305,7 +305,17 @@ def delta_analysis(fn, counters, discr=(), start_event=None, stop=None, maxstate
         for y in walk(x):
             if y.get('k') == 'var' and y.get('vk') in ('global', 'staticlocal'):
                 globals_seen.add(y['name'])
-    relevant = relevant_vars(fn)
+    relevant = relevant_vars(fn) | set(extra_relevant) | set(init_env or ())
+    # close over copies/expressions feeding relevant variables
+    changed = True
+    while changed and extra_relevant:
+        changed = False
+        for e_ in fn.events():
+            if e_['ev'] == 'store' and strip(e_['lhs']).get('k') == 'var' and strip(e_['lhs'])['name'] in relevant and 'rhs' in e_:
+                for y in walk(e_['rhs']):
+                    if y.get('k') == 'var' and y.get('vk') != 'func' and y['name'] not in relevant:
+                        relevant.add(y['name'])
+                        changed = True
     live_after = liveness(fn, relevant)
 
     def transfer(e, S):
@@ -351,7 +361,7 @@ def delta_analysis(fn, counters, discr=(), start_event=None, stop=None, maxstate
             out.add((d, _envkey(env), p2))
         return frozenset(out) if out else None
 
-    init = frozenset([(zero, (), frozenset())]) if start_event is None else frozenset()
+    init = frozenset([(zero, _envkey(init_env or {}), frozenset())]) if start_event is None else frozenset()
     start = fn.entry if start_event is None else start_event['_b']
     if start_block is not None:
         start = start_block
